@@ -95,3 +95,15 @@ func verifRoundTripStringList(b *TypedBucket, name string, value []string) []str
 	b.SetStringList(name, value, nil)
 	return b.GetStringList(name)
 }
+
+// containers: one scalar entry of a map or list written and read back
+func verifRoundTripMarshaled(b *TypedBucket, name string, v interface{}) interface{} {
+	b.setMarshaled(name, v, false)
+	return b.getMarshaled(name)
+}
+
+// lists: the scalar elements of a list are read back in place
+func verifRoundTripList(b *TypedBucket, name string, value []interface{}) []interface{} {
+	b.PutList(name, value, nil)
+	return b.GetList(name)
+}
